@@ -429,6 +429,11 @@ class Check(object):
         self.exhaustive = False
         self.tlc_runs = []
         self.findings = load_findings(pid)
+        d = os.path.join(VERIF, "replays", pid)
+        if os.path.isdir(d):
+            for f in os.listdir(d):
+                if f.startswith(tier + "-"):
+                    os.unlink(os.path.join(d, f))
 
     def add_tlc(self, name, res):
         if res.error:
